@@ -409,7 +409,7 @@ def write(m, ch, ch_atoms=None, variants=True, label_style=None, digit_after_bra
     ok = [True]
     nonstandard = [False]
 
-    def emit_atom(x, parent, pre_k=0):
+    def emit_atom(x, parent, pre_k=0, pre_d=0):
         """atom text; the ring digits are written by emit_digits - after the first pre_k (parenthesised) branches
         when pre_k > 0, which most readers (and selfies) accept although OpenSMILES puts ring bonds first"""
         a = m.atoms[x]
@@ -419,8 +419,11 @@ def write(m, ch, ch_atoms=None, variants=True, label_style=None, digit_after_bra
         if a["chiral"] and (a["h"] or 0) >= 1:
             nb.append("H")
         kids = plans[x]["kids"]
+        evs = ring_events[x]
+        for key in evs[:pre_d]:
+            nb.append([y for y in key if y != x][0])
         nb += kids[:pre_k]
-        for key in ring_events[x]:
+        for key in evs[pre_d:]:
             nb.append([y for y in key if y != x][0])
         nb += kids[pre_k:]
         tag = None
@@ -434,8 +437,8 @@ def write(m, ch, ch_atoms=None, variants=True, label_style=None, digit_after_bra
         pieces.append(atom_text(a, tag, ch_atoms, variants))
         return kids
 
-    def emit_digits(x):
-        for key in ring_events[x]:
+    def emit_digits(x, lo=0, hi=None):
+        for key in ring_events[x][lo:hi]:
             other = [y for y in key if y != x][0]
             o = m.order[key]
             opening = key not in label_of
@@ -498,18 +501,23 @@ def write(m, ch, ch_atoms=None, variants=True, label_style=None, digit_after_bra
                 pieces.append(item[1])
                 continue
             if item[0] == "digits":
-                emit_digits(item[1])
+                emit_digits(item[1], item[2], item[3])
                 continue
             _, x, parent = item
             nk = len(plans[x]["kids"])
             pre_k = 0
+            pre_d = 0
             if digit_after_branch and ring_events[x] and nk >= 1 and ch.bool(digit_after_branch):
                 pre_k = ch.int(1, nk)      # pre_k == nk: every neighbour in parentheses, the digits come last
+                if len(ring_events[x]) >= 2 and ch.bool(50):
+                    pre_d = ch.int(1, len(ring_events[x]) - 1)   # some digits first, the rest after the branches
                 nonstandard[0] = True
-            kids = emit_atom(x, parent, pre_k)
+            kids = emit_atom(x, parent, pre_k, pre_d)
             todo = []
             if pre_k == 0:
-                todo.append(("digits", x))
+                todo.append(("digits", x, 0, None))
+            elif pre_d:
+                todo.append(("digits", x, 0, pre_d))
             for i, y in enumerate(kids):
                 last = i == len(kids) - 1 and pre_k < len(kids)
                 o = m.order[frozenset((x, y))]
@@ -534,7 +542,7 @@ def write(m, ch, ch_atoms=None, variants=True, label_style=None, digit_after_bra
                     todo.append(("atom", y, x))
                     todo.append(("text", ")"))
                     if pre_k and i == pre_k - 1:
-                        todo.append(("digits", x))
+                        todo.append(("digits", x, pre_d, None))
                 else:
                     todo.append(("text", bc))
                     todo.append(("atom", y, x))
